@@ -203,7 +203,8 @@ pub fn decode_spec(u: &mut Unstructured, mode: u8, tier: Tier) -> Spec {
 /// keys for the sharded logics and more than 100000 for FuseLge3NoShards (no
 /// lazy Gaussian elimination there); 800001 sits right above the switch, where
 /// about a third of the seeds give a graph that does not peel at the first
-/// attempt. The first 10 entries are the quick tier.
+/// attempt; 400000, 799999 and 800000 keys are the sharded sizes at which the first attempt most often has an
+/// unbalanced shard (MaxShardTooBig: 12% and 50% of the seeds). The first 10 entries are the quick tier.
 pub fn peeling_spec(j: usize) -> Spec {
     const T: [(usize, u8); 24] = [
         (800_001, 0),
@@ -212,16 +213,16 @@ pub fn peeling_spec(j: usize) -> Spec {
         (100_003, 2),
         (800_001, 7),
         (150_001, 11),
-        (1_000_003, 19),
-        (800_002, 1),
-        (120_000, 17),
+        (799_999, 19),
+        (800_000, 1),
+        (400_000, 7),
         (2_500_000, 0),
         (5_000_001, 7),
         (10_000_001, 2),
         (20_000_001, 19),
         (4_999_999, 11),
         (20_500_000, 1),
-        (800_001, 16),
+        (1_000_003, 16),
         (1_700_001, 5),
         (10_000_000, 6),
         (6_000_000, 0),
@@ -229,7 +230,7 @@ pub fn peeling_spec(j: usize) -> Spec {
         (3_000_000, 10),
         (800_001, 13),
         (400_001, 8),
-        (250_000, 15),
+        (800_000, 4),
     ];
     let (n, row) = T[j % T.len()];
     let mut cfg = Cfg::default();
@@ -384,7 +385,7 @@ impl Property for C07 {
         true
     }
     fn rule(&self) -> &'static str {
-        "case = (row of a 20-row table of (key type in usize/u64/u8/String/str, value word u8..usize, backend Box<[W]>/BitFieldVec<W>, signature 64/128 bits, one of the 5 shard/edge logics), n, key style (dense/strided/permuted, prefix families, unicode), value kind (identity, all zero, all ones, uniform b-bit, one outlier), configuration (offline, low_mem, threads in 1..16, eps, log2_buckets, seed, expected_num_keys absent/exact/half/double/zero/another sharding regime, check_dups), optionally a second configuration) decoded from bytes; plus the enumeration of every n in 0..=130 on every table row with the default configuration; plus sizes around the 100k/200k/400k/800k/1.7M regime switches; plus an enumerated segment of builds in the pure peeling regimes (800001/800002 keys on the sharded logics, 100001..150001 on FuseLge3NoShards, 10^6, 2.5*10^6; thorough also 5*10^6+-1, 10^7(+1), 2*10^7+1 and 2.05*10^7 keys: every expansion-factor bracket and sharded peeling) with low/high-memory peeling, 1..16 threads, on- and off-line stores. Plus one build per key type with a ToSig implementation (String, &String, &str, the twelve primitive integers, slices of seven element types) at 100003 keys (sharded) and 1000 keys, with 128- and 64-bit signatures. Keys come from a harness lender that counts passes and fails its 65th rewind (deterministic termination bound). Oracle = the input pairs: Ok, len()==n, get(k_i)==v_i for all i, get_unaligned where the width is admissible, agreement between configurations. Non-trivial: n>=1; distinct = distinct hash of the decoded spec."
+        "case = (row of a 20-row table of (key type in usize/u64/u8/String/str, value word u8..usize, backend Box<[W]>/BitFieldVec<W>, signature 64/128 bits, one of the 5 shard/edge logics), n, key style (dense/strided/permuted, prefix families, unicode), value kind (identity, all zero, all ones, uniform b-bit, one outlier), configuration (offline, low_mem, threads in 1..16, eps, log2_buckets, seed, expected_num_keys absent/exact/half/double/zero/another sharding regime, check_dups), optionally a second configuration) decoded from bytes; plus the enumeration of every n in 0..=130 on every table row with the default configuration; plus sizes around the 100k/200k/400k/800k/1.7M regime switches; plus an enumerated segment of builds in the pure peeling regimes (800001 keys on the sharded logics, and 400000/799999/800000 keys where unbalanced shards are frequent, 100001..150001 on FuseLge3NoShards, 10^6, 2.5*10^6; thorough also 5*10^6+-1, 10^7(+1), 2*10^7+1 and 2.05*10^7 keys: every expansion-factor bracket and sharded peeling) with low/high-memory peeling, 1..16 threads, on- and off-line stores. Plus one build per key type with a ToSig implementation (String, &String, &str, the twelve primitive integers, slices of seven element types) at 100003 keys (sharded) and 1000 keys, with 128- and 64-bit signatures. Keys come from a harness lender that counts passes and fails its 65th rewind (deterministic termination bound). Oracle = the input pairs: Ok, len()==n, get(k_i)==v_i for all i, get_unaligned where the width is admissible, agreement between configurations. Non-trivial: n>=1; distinct = distinct hash of the decoded spec."
     }
     fn run(&self, data: &[u8], cx: &mut Ctx) -> R {
         let (mode, rest) = data.split_first().unwrap_or((&0, &[]));
